@@ -1384,8 +1384,9 @@ class TexArgs(list):
         0
         """
         item = self.__coerce(item)
-        self.all.remove(item)
-        super().remove(item)
+        index = self.index(item)
+        self.all.pop(self.__index_in_all(self[index]))
+        super().pop(index)
 
     def pop(self, i):
         """Pop argument object at provided index.
